@@ -262,9 +262,12 @@ def queries_for(pid):
                 ('count(*) from R0 group by size order by size desc', counts_by_size_desc, True),       # an ordering key need not be selected
                 ('count(*) from R0 group by size', counts_only, False),
                 ('length(name), count(*), sum(size) from R0 group by length(name)', grp(lambda i: len(N[i])), False),
+                # averages with a fraction and different digit counts (5 nodes: 153.5, 12, 7): ordered as numbers
+                ('length(name), avg(size) from R0 group by length(name) order by avg(size)', lambda v, k: sorted([[str(l_), ('%g' % (sum(S[i] for i in v if len(N[i]) == l_) / len([i for i in v if len(N[i]) == l_])))] for l_ in {len(N[i]) for i in v}], key=lambda r: float(r[1])), True),
                 ('size, count(*), sum(size) from R0 group by size order by sum(size) desc, size', lambda v, k: sorted(grp(size)(v, k), key=lambda r: (-int(r[2]), int(r[0]))), True)]
     if pid == 'C15':
-        return [('name, size * 2 + 1, -size, size - 100 from R0', lambda v, k: _rows(v, [name, lambda i: S[i] * 2 + 1, lambda i: -S[i], lambda i: S[i] - 100]), False),
+        return [('name from R0 where size = 15 / 2 or 8 < size', lambda v, k: _rows([i for i in v if S[i] == 7.5 or 8 < S[i]], [name]), False),   # a fraction is not cut; a literal may stand on the left
+                ('name, size * 2 + 1, -size, size - 100 from R0', lambda v, k: _rows(v, [name, lambda i: S[i] * 2 + 1, lambda i: -S[i], lambda i: S[i] - 100]), False),
                 ('size - 1, size + 1, (size + 1) * 2, size + 1 * 2 from R0', lambda v, k: _rows(v, [lambda i: S[i] - 1, lambda i: S[i] + 1, lambda i: (S[i] + 1) * 2, lambda i: S[i] + 2]), False),
                 ('name from R0 where size % 7 = 0 and size / 7 >= 1', lambda v, k: _rows([i for i in v if S[i] % 7 == 0 and S[i] / 7 >= 1], [name]), False)]
     if pid == 'C16':
